@@ -137,6 +137,19 @@ Proof.
 Qed.
 
 (* ---------------------------------------------------------------------------------------------
+   tokenizer quote scans *)
+Lemma quote_scan_l : forall name test, In (name, test) quote_scan_tests ->
+  forall fuel quote pat i n k, In k (scan_reads fuel test quote pat i n) -> (k < n)%N.
+Proof.
+  intros name test Hin.
+  assert (Ht : forall a b, test a b = true -> (a < b)%N).
+  { cbn in Hin. repeat (destruct Hin as [Hin|Hin]; [inversion Hin; subst; intros a b H; lia|]). destruct Hin. }
+  induction fuel; intros quote pat i n k Hk; cbn [scan_reads] in Hk; [destruct Hk|].
+  destruct (test i n) eqn:E; [|destruct Hk]. destruct Hk as [Hk|Hk]; [subst; apply Ht; exact E|].
+  destruct (pat i =? quote)%N; [destruct Hk|]. eapply IHfuel. exact Hk.
+Qed.
+
+(* ---------------------------------------------------------------------------------------------
    int2alphaCount *)
 Lemma alpha_loop_len : forall fuel radix j val li corr acc l,
   (2 <= radix)%N -> (val < radix ^ N.of_nat (S j))%N ->
